@@ -112,7 +112,7 @@ def run_once(sc, src, dst, fl, ids, k=1, extra_env=None, extra_args=(), select=N
     for kind, rel, _sz in dlist:
         e = dsnap[rel]
         if kind == "d":
-            dsts.append("d:%s" % ids.path(rel))
+            dsts.append("d:%s:%d:%d" % (ids.path(rel), e.get("size", 4096), e["mtime_ns"]))
         elif kind == "f":
             dsts.append("f:%s:%d:%d:%d" % (ids.path(rel), e["size"], e["mtime_ns"], ids.content(e["sha"], e["size"])))
     env = {"SY_VERIF_DELTA_THRESHOLD": str(fl.get("big", BIG))}
@@ -140,7 +140,7 @@ def run_once(sc, src, dst, fl, ids, k=1, extra_env=None, extra_args=(), select=N
         if t in ("create", "update", "skip", "delete"):
             rel = os.path.relpath(ev["path"], dst)
             evs.append("%s:%s" % (t, ids.path(rel)))
-    refused = 1 if ("threshold exceeded" in (rr["err"] + rr["out"]).lower() and rr["rc"] not in (0, None)) else 0
+    refused = 1 if ("deletion threshold exceeded" in (rr["err"] + rr["out"]).lower() and rr["rc"] not in (0, None)) else 0
     # universe extras: every path that exists afterwards
     extra = sorted(set(ids.path(rel) for rel in after) | set(ids.path(rel) for rel in ssnap))
     case = "E %s %d %s %s %s" % (flags_str(fl), now_of(k), ",".join(srcs) or "-", ",".join(dsts) or "-", ",".join(extra) or "-")
